@@ -3,6 +3,8 @@ package http2
 import (
 	"bufio"
 	"io"
+
+	"github.com/valyala/fasthttp"
 )
 
 // C18 — SETTINGS are acknowledged in order and the peer's limits are obeyed.
@@ -230,4 +232,90 @@ func VerifH_C18_ack() {
 		}
 	}
 	vCover("C18.ack.any", true)
+}
+
+// A response whose header block does not fit one frame of the size the peer
+// accepts (a 17000-byte header value; SETTINGS_MAX_FRAME_SIZE 16384): through
+// the real Serve and its write loop, every frame on the wire is within 16384
+// bytes, the header block arrives as HEADERS followed directly by
+// CONTINUATION frames with END_HEADERS on the last, and decodes (reference
+// decoder) to the fields the handler set. The same for a request written by
+// the client's write loop.
+//
+//verif:harness prop=C18 unwind=300 timeout=900
+func VerifH_C18_hdrsize() {
+	var out []byte
+	server := vBool()
+	if server {
+		conn := &vConn{in: make(chan []byte, 4), done: make(chan struct{})}
+		conn.w.failAt = -1
+		sc := vNewServerConn()
+		sc.c = conn
+		sc.br = bufio.NewReaderSize(conn, 256)
+		sc.bw = bufio.NewWriterSize(conn, 256)
+		sc.st.maxStreams = 8
+		sc.maxHeaderList = DefaultMaxHeaderListSize
+		sc.pingInterval = -1
+		sc.h = func(ctx *fasthttp.RequestCtx) {
+			ctx.Response.SetStatusCode(200)
+			ctx.Response.Header.Set("x-big", vBigValue)
+		}
+		go func() { _ = sc.Serve() }()
+		conn.in <- vFrame(0x1, 0x5, 1, vReqBlock('1'))
+		vSettle()
+		close(conn.in)
+		vSettle()
+		out = conn.w.out
+	} else {
+		cl := vStartClient()
+		req, res := &fasthttp.Request{}, &fasthttp.Response{}
+		req.Header.SetMethod("GET")
+		req.URI().SetHost("h")
+		req.URI().SetPath("/1")
+		req.URI().SetScheme("https")
+		req.Header.Set("x-big", vBigValue)
+		cl.c.Write(&Ctx{Request: req, Response: res, Err: make(chan error, 1)})
+		vSettle()
+		out = cl.conn.w.out
+	}
+	var block []byte
+	inBlock, done := false, false
+	for len(out) >= 9 {
+		f, used, st := refParseFrame(out, 16384)
+		vAssert(st == refFrOK, "C18.hdrsize.frame-within-peer-max-frame-size")
+		if st != refFrOK {
+			return
+		}
+		out = out[used:]
+		switch {
+		case f.typ == 0x1 && f.stream == 1:
+			vAssert(!inBlock && !done, "C18.hdrsize.one-headers-frame")
+			block = append(block, f.frag...)
+			inBlock = f.flags&0x4 == 0
+			done = !inBlock
+		case inBlock:
+			vAssert(f.typ == 0x9 && f.stream == 1, "C18.hdrsize.nothing-interleaved-in-the-block")
+			block = append(block, f.frag...)
+			if f.flags&0x4 != 0 {
+				inBlock, done = false, true
+			}
+		}
+	}
+	vAssert(done && !inBlock, "C18.hdrsize.block-complete")
+	t := &refTable{max: 4096, limit: 4096}
+	found := false
+	for pos := 0; pos < len(block); {
+		fld, upd, used, st := refHpackRep(t, pos == 0, block[pos:])
+		vAssert(st == refOK, "C18.hdrsize.valid-header-block")
+		if st != refOK {
+			return
+		}
+		pos += used
+		if !upd && fld.sidx == 0 && string(fld.name) == "x-big" {
+			found = len(fld.value) == len(vBigValue)
+		}
+	}
+	vAssert(found, "C18.hdrsize.field-intact")
+	vCover("C18.hdrsize.server", server && found)
+	vCover("C18.hdrsize.client", !server && found)
 }
